@@ -376,3 +376,22 @@ Definition cancelled_cb (c : nat) (t : list tev) : bool :=
                    | _ => false end) t.
 Definition check_C04_join_cancel (n : nat) (t : list tev) : bool :=
   forallb (fun c => negb (started_ok c t && cancelled_cb c t) || ended c t) (seq 0 n).
+
+(* ---------- C04: ActorStarted is delivered before the terminal event ---------- *)
+(* when supervisor s starts to handle a terminal event about a child c spawn-linked to it whose
+   post_start had returned Ok, it has already handled ActorStarted(c) (seeded regression C04-7:
+   ActorStarted suppressed when a drain overtook post_start) *)
+Fixpoint check_C04_started_first_go (links : list (option nat)) (seen : list tev) (t : list tev) : bool :=
+  match t with
+  | [] => true
+  | e :: r =>
+    match e with
+    | TEnter s (Sup x) =>
+        let c := about x in
+        negb (is_terminal x) || negb (onat_eqb (nth c links None) (Some s)) || negb (post_start_ok c seen)
+        || Nat.ltb 0 (count_sup s (fun y => negb (is_terminal y) && Nat.eqb (about y) c) seen)
+    | _ => true
+    end && check_C04_started_first_go links (seen ++ [e]) r
+  end.
+Definition check_C04_started_first (links : list (option nat)) (t : list tev) : bool :=
+  check_C04_started_first_go links [] t.
